@@ -16,6 +16,17 @@ func (xp xpathImpl) resolvePath(seg *xpath.Path, s *Selection) (*Selection, erro
 		// path ended on a container or list item, it's there
 		return s, nil
 	}
+	if seg.Ident == ".." {
+		up := s.parent
+		if up != nil && s.InsideList {
+			// the parent of a list item is the node holding the list, not the list
+			up = up.parent
+		}
+		if up == nil {
+			return nil, fmt.Errorf("'..' in xpath leads above the root")
+		}
+		return xp.resolvePath(seg.Next, up)
+	}
 	defs, hasDefs := s.Meta().(meta.HasDefinitions)
 	if !hasDefs {
 		return nil, fmt.Errorf("'%s' not found in xpath, nothing below %s", seg.Ident, s.Meta().Ident())
